@@ -174,6 +174,19 @@ CLAIMED = {
             "decided.",
             "Trusted: rustc nightly MIR; the evaluator's model of Vec iteration in exported_symbols.",
             "DESIGN.md §4 C14"),
+    "C15": ("constant/template scan of the manifest generator, control-dependence slices of each dependency line, "
+            "template-crate vs manifest-crate comparison, loop-coverage of feature scans in prepare_project, "
+            "per-walker coverage of the feature scanners",
+            "Decides: no `\"*\"` dependency template exists and the unknown-crate error is constructed (neither "
+            "holds: reproduced); every fixed dependency line is guarded by exactly its feature flag; every crate "
+            "named by an emitter template is declarable; feature scans and rust-crate collection run over all parsed "
+            "modules (they run over the entry module only: reproduced); the json/serde scanner visits every statement "
+            "and expression kind and every decorator (12 gaps, reproduced for `if` conditions); the manifest template "
+            "has package/target/edition/workspace keys. That the manifest is right for every program is not decided "
+            "behaviourally.",
+            "Trusted: rustc nightly MIR; recovery of format! templates from lowered constants. The async and "
+            "list-helper scanners are deliberately not armed (reasons in rules/c15.py).",
+            "DESIGN.md §4 C15"),
 }
 
 NOT_APPLICABLE = {
